@@ -1,9 +1,89 @@
+/-
+BDS 4,0 selected vertical intention: panic-freedom (C01), serialisation (C07) and physical
+ranges (C08) of `Bds40.read`, for every reader state (= every payload).
+Per-field facts are complete kernel enumerations of the 12-bit code space (the u16 operations
+`value * 16`, `+ 8`, `/ 100`, `* 100` never overflow).  None of the register's keys is in the C08
+table; the accepted selected altitudes are nevertheless shown to be multiples of 100 ft ≤ 45000.
+-/
 import Rs1090.Proofs.Decode.Wp
+import Rs1090.Proofs.Decode.Ser
+import Rs1090.Proofs.Decode.OkAnd
 import Rs1090.Model.Decode.Bds40
 namespace Rs1090.Model.Bds40
-open Rs1090 Rs1090.Model
+open Rs1090 Rs1090.Model Rs1090.Props.C13
 
-/-- STUB proof for the STUB reader (replaced together with the model) -/
-theorem read_noPanic : NoPanic read := by unfold read; exact noPanic_fail _
+/-! ### per-field facts -/
+
+/-- `read_selected`: no u16 overflow; an accepted altitude is a multiple of 100 ft, at most 45000 -/
+theorem selectedAlt_spec : ∀ st v, v < 2 ^ 12 →
+    (selectedAlt st v).okAnd (optAll fun a => decide (a % 100 = 0) && decide (a ≤ 45000)) = true := by
+  intro st
+  cases st <;> (refine enum 12 ?_; decide +kernel)
+
+/-- `read_qnh`: an accepted setting is within 800 … 1209.5 hPa (tenths) -/
+theorem qnhNum_spec : ∀ st v, v < 2 ^ 12 →
+    (qnhNum st v).okAnd (optAll fun n => decide (8000 ≤ n) && decide (n ≤ 12095)) = true := by
+  intro st
+  cases st <;> (refine enum 12 ?_; decide +kernel)
+
+theorem readSelected_wp (Q : Option Nat → Rd → Prop) (s : Rd) (h : ∀ o s', Q o s') :
+    wp readSelected Q s := by
+  unfold readSelected
+  wp_run
+  apply wp_lift_okAnd (selectedAlt_spec _ _ (by assumption)); intro o _
+  exact h _ _
+
+theorem readQnh_wp (Q : Option Nat → Rd → Prop) (s : Rd) (h : ∀ o s', Q o s') :
+    wp readQnh Q s := by
+  unfold readQnh
+  wp_run
+  apply wp_lift_okAnd (qnhNum_spec _ _ (by assumption)); intro o _
+  exact h _ _
+
+theorem targetSource_good (id : Nat) : optAll (fun j => j.wf && j.inRange) (targetSource id) = true := by
+  unfold targetSource
+  split <;> rfl
+
+/-! ### the reader -/
+
+theorem read_good (s : Rd) : wp read (fun r _ => SerGood [] r ∧ RangeGood r) s := by
+  unfold read
+  wp_run
+  apply readSelected_wp; intro mcp s1
+  wp_run
+  apply readSelected_wp; intro fms s2
+  wp_run
+  apply readQnh_wp; intro qnh s3
+  wp_run
+  wp_if hres
+  · wp_run
+  · wp_run
+    wp_if hres1
+    · wp_run
+    · wp_run
+      constructor
+      · apply serGood_of
+        · keys_decide
+        · keys_decide
+        · fields_cases
+          · exact wf_of_map_some hv (fun _ => rfl)
+          · exact wf_of_map_some hv (fun _ => rfl)
+          · exact wf_of_map_some hv (fun _ => rfl)
+          · exact wf_of_good (targetSource_good _) hv
+      · apply rangeGood_of
+        range_cases
+        · exact inRange_of_map_some hv (fun _ => rfl)
+        · exact inRange_of_map_some hv (fun _ => rfl)
+        · exact inRange_of_map_some hv (fun _ => rfl)
+        · exact inRange_of_good (targetSource_good _) hv
+
+theorem read_noPanic : NoPanic read :=
+  fun s => wp_mono (read_good s) (fun _ _ _ => trivial)
+
+theorem read_serGood (s : Rd) : wp read (fun r _ => SerGood [] r) s :=
+  wp_mono (read_good s) (fun _ _ h => h.1)
+
+theorem read_rangeGood (s : Rd) : wp read (fun r _ => RangeGood r) s :=
+  wp_mono (read_good s) (fun _ _ h => h.2)
 
 end Rs1090.Model.Bds40
